@@ -710,6 +710,16 @@ func (bc *BlockChain) verifyAllSideChainBlocks(chain types.Blocks) (err error) {
 			return err
 		}
 
+		// The staking module reads the parent header of the block it executes from
+		// the chain (checkAndUpgradeValidatorsToYouV5): a verified fork block must be
+		// readable before the next one is processed.  insertSidechain stores the
+		// verified blocks without state anyway; do it as soon as each one is verified.
+		if !bc.HasBlock(b.Hash(), b.NumberU64()) {
+			if err := bc.WriteBlockWithoutState(b); err != nil {
+				return err
+			}
+		}
+
 		//append parent for next block
 		parents = append(parents, b)
 		if i <= maxCachesIndex {
